@@ -440,7 +440,8 @@ impl<H: Host> ZXController<H> {
     }
 
     /// C06 paging invariant: the memory map is a function of the machine and the paging latch
-    pub open spec fn paging_inv(&self) -> bool {
+    /// (`lock`: also require paging_enabled <=> bit 5 of the latch clear)
+    pub open spec fn paging_inv_l(&self, lock: bool) -> bool {
         if is48(self.machine) {
             &&& self.map_is(Page::Rom(0), Page::Ram(0), Page::Ram(1), Page::Ram(2))
             &&& !self.paging_enabled
@@ -448,17 +449,19 @@ impl<H: Host> ZXController<H> {
         } else {
             &&& self.map_is(Page::Rom((self.current_port_7ffd >> 4) & 1), Page::Ram(5), Page::Ram(2),
                     Page::Ram(self.current_port_7ffd & 7))
-            &&& (self.paging_enabled <==> self.current_port_7ffd & 0x20 == 0)
+            &&& (lock ==> (self.paging_enabled <==> self.current_port_7ffd & 0x20 == 0))
             &&& self.memory.rom@.len() == 32768 && self.memory.ram@.len() == 8 * 16384
         }
     }
+    pub open spec fn paging_inv(&self) -> bool { self.paging_inv_l(true) }
 
-    pub open spec fn inv(&self) -> bool {
+    pub open spec fn inv_l(&self, lock: bool) -> bool {
         &&& self.memory.wf()
-        &&& self.paging_inv()
+        &&& self.paging_inv_l(lock)
         &&& (self.frame_clocks as int) < frame_len(self.machine)
         &&& self.mixer.ay.wf()
     }
+    pub open spec fn inv(&self) -> bool { self.inv_l(true) }
 
     /// room for `k` more frame-counter increments (machine arithmetic is not mathematical:
     /// `passed_frames += 1` must not overflow; the counter is reset on every emulate_frames call)
@@ -577,7 +580,7 @@ impl<H: Host> ZXController<H> {
                     c_then(old(self).machine, old(self).total(), clk as int)
                 } else { old(self).total() + clk as int }),
             final(self).passed_frames as int <= old(self).passed_frames as int + 2,
-//@ at 1 /match self\.machine/
+//@ at 0 //
         proof { reveal(c_then); }
 //@ end
 
@@ -599,7 +602,7 @@ impl<H: Host> ZXController<H> {
                     c_then(old(self).machine, old(self).total(), 1)
                 } else { old(self).total() + 1 }),
             final(self).passed_frames as int <= old(self).passed_frames as int + 2,
-//@ at 1 /if self\.addr_is_contended/
+//@ at 0 //
         proof { reveal(c_then); }
 //@ end
 
@@ -614,15 +617,17 @@ impl<H: Host> ZXController<H> {
                         c_then(old(self).machine, old(self).total(), 1), 1), 1) }
                 else { old(self).total() + 3 }),
             final(self).passed_frames as int <= old(self).passed_frames as int + 3,
-//@ at 1 /if self\.machine\.port_is_contended/
+//@ at 0 //
         proof { reveal(c_then); }
 //@ end
 
 //@ fn rustzx-core/src/zx/controller.rs impl <H:Host>ZXController<H>::write_7ffd props C06 C07
 //@ sig
-        requires old(self).inv(),
+        requires old(self).inv_l(false),
         ensures
-            final(self).inv(),
+            old(self).inv() ==> final(self).inv(),
+            old(self).paging_enabled ==> final(self).inv(),
+            final(self).inv_l(false),
             // once locked (or on the 48K) every paging write is ignored
             !old(self).paging_enabled ==> final(self).memory == old(self).memory
                 && final(self).current_port_7ffd == old(self).current_port_7ffd
@@ -647,6 +652,22 @@ impl<H: Host> ZXController<H> {
             assert((val & 0x07) < 8) by(bit_vector);
             assert(((val >> 4) & 0x01) < 2) by(bit_vector);
         }
+//@ end
+
+//@ fn rustzx-core/src/zx/controller.rs impl <H:Host>ZXController<H>::restore_7ffd props C06 C13 C14
+//@ sig
+        requires old(self).inv(),
+        ensures
+            final(self).inv(),
+            // snapshot restore: on the 128K the value always becomes the latch (lock bit included)
+            !is48(old(self).machine) ==> final(self).current_port_7ffd == val
+                && final(self).screen_bank == (if val & 0x08 == 0 { 5u8 } else { 7u8 }),
+            is48(old(self).machine) ==> final(self).memory == old(self).memory
+                && final(self).current_port_7ffd == old(self).current_port_7ffd,
+            final(self).memory.rom@ == old(self).memory.rom@, final(self).memory.ram@ == old(self).memory.ram@,
+            final(self).machine == old(self).machine,
+            final(self).frame_clocks == old(self).frame_clocks, final(self).passed_frames == old(self).passed_frames,
+            final(self).mixer == old(self).mixer, final(self).border_color == old(self).border_color,
 //@ end
 
 //@ fn rustzx-core/src/zx/controller.rs impl <H:Host>ZXController<H>::read_7ffd props C06 C13
